@@ -64,11 +64,48 @@ def gen_access(rng, maxn):
     elif kind == "s": w += [near(c) if rng.random() < 0.5 else near(n)]
     return "c18 " + " ".join(map(str, w))
 
+def spec_pass(id_, n, c, a):
+    """the property's own relation, in exact integer arithmetic: True = the request is inside the object / conformable
+    (must not throw), False = must throw, None = either (documented corner)"""
+    kind = ACC[id_][1]
+    if kind == 1: return a[0] < n
+    if kind == 2: return a[0] < n and a[1] < (c if id_ in (3, 4, 7, 8) else n)
+    if id_ == 10: return a[0] + a[1] <= n
+    if id_ == 11: return a[0] + a[1] <= n and a[2] + a[3] <= c
+    if id_ == 12: return a[0] + a[2] <= n and a[1] + a[3] <= c
+    if id_ == 13: return a[0] < c
+    if id_ in (14, 17): return a[0] < n
+    if id_ == 15: return a[0] < c and a[1] == n
+    if id_ == 16: return a[0] < n and a[1] == c
+    if id_ == 18: return a[0] < n and a[1] == n
+    if id_ == 19:
+        if a[1] == 0 or a[3] == 0: return None if (a[0] + a[1] <= n and a[2] + a[3] <= n) else False   # empty block of a SymMatrix: rejected (conservative)
+        return a[0] + a[1] <= n and a[2] + a[3] <= n
+    if id_ == 20:
+        if a[0] == a[1] and a[1] < n: return None            # 1x1 block: rejected by design (iend>istart)
+        return a[0] < a[1] < n
+    if id_ in (30, 36, 44): return c == a[0] if id_ != 44 else n == a[0]
+    if id_ == 31: return n == a[0]
+    if id_ == 32: return c == a[1]
+    if id_ == 33: return n == a[1]
+    if id_ == 34: return c == a[0]
+    if id_ == 35: return n == a[0]
+    if id_ in (37, 38, 39): return n == a[0] and c == a[1]
+    if id_ in (40, 41, 42, 43, 45, 46, 47, 48, 49, 50, 51): return n == a[0]
+    if id_ == 52: return n == a[0]
+    if id_ == 53: return n == c
+    return None
+
 def access_verdict(case, m, i):
     """None when generated guard/index and the real call agree; else text"""
     w = case.split(); id_ = int(w[2]); name = ACC[id_][0]
     mm = m.split(); ii = i.split()
+    if i == "CRASH skipped": return None           # harness gave up restarting after many crashes: no verdict for this case
     if i.startswith("CRASH"): return "%s crashed (model: %s)" % (name, m)
+    sp = spec_pass(id_, int(w[3]), int(w[4]), [int(x) for x in w[5:]])
+    if sp is False and ii[0] == "1": return "%s: the request is out of range / non-conformable but the call returned normally (slot %s)" % (name, ii[1])
+    if sp is True and ii[0] == "0": return "%s: the request is valid but the call threw" % name
+    if sp is False and mm[0] == "1" and id_ not in GUARD_THEN_ELEMENTS: return "%s: the assertion in the source (translated) accepts an out-of-range / non-conformable request" % name
     if ii[0] == "7": return None if True else ""        # allocation refused: reported by an exception
     if mm[0] == "4": return "%s: the translated guard holds but the translated index %s lies outside the buffer" % (name, mm[1])
     if id_ in GUARD_THEN_ELEMENTS:
